@@ -403,6 +403,62 @@ def exact_numeric_order_rule(ck, facts):
                "([16777217, 1.6777216E7, 16777216] for ASC: findings/C14_lossy_promotion_in_order_by.rs)", fn.loc)
 
 
+def float_coercion_rule(ck, facts):
+    """R14.9: the decimal -> xsd:float promotion rounds once: BigDecimal has no to_f32 of its own (the num_traits default is to_f64
+    followed by a cast, two roundings: 16777217.0000000001 becomes 16777216, its nearest float is 16777218)."""
+    fn = find(ck, facts, "R14.9", r"_number::SparqlNumber::coerce_to_float$", "SparqlNumber::coerce_to_float")
+    if fn is None:
+        return
+    hits = [t for _, t in fn.calls() if call_name_matches(t, r"ToPrimitive>?::to_f32$") and t["args"] and t["args"][0][0] != "k"
+            and "BigDecimal" in fn.locals[t["args"][0][1][0]]["ty"]]
+    if hits:
+        ck.bad("R14.9", "R14.9@coerce_to_float#double-rounding", "a decimal is promoted to xsd:float with BigDecimal's to_f32, which is to_f64 followed "
+               "by a cast: decimals within half an f64 ulp of the midpoint of two floats get the wrong float, and tie with a float they "
+               "are strictly greater than", "%s:%s" % (hits[0]["file"], hits[0]["line"]))
+    else:
+        ck.ok("R14.9", "coerce_to_float does not promote decimals through to_f32 (single rounding)")
+
+
+def key_evaluation_rule(ck, facts):
+    """R14.8: the ORDER BY comparator evaluates the key expressions of both solutions on every comparison (O(n log n) evaluations);
+    with a key that is not a function of the solution (RAND(), BNODE()) the comparator is not a preorder."""
+    fn = find(ck, facts, "R14.8", r"exec::ExecState::<'a, D>::order_by$", "ExecState::order_by")
+    if fn is None:
+        return
+    sorts = [(c, t) for c in facts.with_closures(fn) for _, t in c.calls() if call_name_matches(t, r"slice::<impl \[T\]>::sort\w*$") and len(t["args"]) > 1]
+    if not sorts:
+        ck.bad("R14.8", "R14.8@order_by#anchor", "anchor-missing: the sort of the collected solutions", fn.loc)
+        return
+    evals = []
+    for c, t in sorts:
+        o = c.origin(t["args"][1])
+        cf = facts.fns.get(o[1]["def"]) if o[0] == "agg" and o[1].get("k") == "closure" else None
+        if cf is None:
+            continue
+        todo, seen = [cf], set()
+        depth = {cf.id: 0}
+        while todo:
+            g = todo.pop()
+            if g.id in seen:
+                continue
+            seen.add(g.id)
+            for u in facts.with_closures(g):
+                for _, tt in u.calls():
+                    if call_name_matches(tt, r"expression::ArcExpression::eval$"):
+                        evals.append(tt)
+                    callee = facts.fns.get(tt["f"].get("res") or "")
+                    if callee is not None and callee.crate == "sophia_sparql" and depth[g.id] < 2 and re.search(r"order_by|cmp_bindings", callee.name):
+                        depth.setdefault(callee.id, depth[g.id] + 1)
+                        todo.append(callee)
+    if evals:
+        ck.bad("R14.8", "R14.8@order_by#keys-evaluated-in-comparator", "the sort comparator evaluates the ORDER BY expressions of the two "
+               "solutions it compares, on every comparison: `ORDER BY (RAND() < 0.5) ?x` leaves about a third of 300 solutions out of "
+               "order (the comparator is not a preorder for keys that are not functions of the solution), and every key - EXISTS "
+               "sub-queries included - is evaluated O(n log n) times", "%s:%s" % (evals[0]["file"], evals[0]["line"]))
+    else:
+        ck.ok("R14.8", "the ORDER BY comparator compares precomputed keys (no expression is evaluated inside the sort)")
+
+
 def run(ck, facts, tier):
     facts.require_crates(["sophia_sparql"])
     cmp_bindings_rule(ck, facts)
@@ -411,6 +467,8 @@ def run(ck, facts, tier):
     operand_order_rule(ck, facts)
     promotion_table_rule(ck, facts)
     exact_numeric_order_rule(ck, facts)
+    float_coercion_rule(ck, facts)
+    key_evaluation_rule(ck, facts)
     # R14.3
     fns = [f for f in facts.fns.values() if f.crate == "sophia_sparql" and re.search(r"order_by", f.name)]
     sites = []
